@@ -10,8 +10,8 @@ func init() {
 		Aux:     func(o *Options, scratch string) *AuxResult { return runDecoderAux(o, scratch, "c16") },
 	})
 	registerProperty(&PropertyConfig{
-		ID:    "C17",
-		Level: "other",
+		ID:      "C17",
+		Level:   "other",
 		Explain: "BOUNDED/EXHAUSTIVE ENUMERATION, not deduction: goom's arm64 decoder (copied mechanically from /repo on every run) is executed on instruction words under recover() (Decode and String) and compared with the toolchain's arm64asm on decodability, opcode and the PC-relative operand of branch/address forms, skipping the SYS-space encodings goom deliberately leaves undecoded. Quick tier: stride 4099 over all 2^32 words plus every 257th branch/ADR-class word; thorough tier: all 2^32 words (exhaustive: true). No deductive obligation is claimed for C17.",
 		Trusted: []string{"the toolchain's arm64asm is the reference", "arm64 code is executed on amd64 (pure Go decoder)"},
 		Aux:     func(o *Options, scratch string) *AuxResult { return runDecoderAux(o, scratch, "c17") },
